@@ -138,7 +138,7 @@ async def _collect(x):
     return list(x)
 
 
-async def run_adapter(backend, h, before_op=None, after_op=None):
+async def run_adapter(backend, h, before_op=None, after_op=None, real_files=None):
     """Execute the history on one adapter; canonicalised results."""
     out = []
     chunk = h['chunk']
@@ -162,14 +162,20 @@ async def run_adapter(backend, h, before_op=None, after_op=None):
                 except Exception as e:
                     r = 'missing' if _exc_class(e) in MISSING_OK else f'error:{_exc_class(e)}'
             elif k == 'download_stream':
-                st = io.BytesIO()
+                # every other streamed download goes into a real file when a directory is given (truncate() extends there)
+                st = open(real_files / f'o{idx}.bin', 'w+b') if (real_files is not None and idx % 2) else io.BytesIO()
                 try:
                     await _maybe_await(backend.download_stream(op[1], st, chunk))
-                    r = st.getvalue().hex()
-                    if st.tell() != len(st.getvalue()):
-                        r = f'error:position {st.tell()} of {len(st.getvalue())}'
+                    pos = st.tell()
+                    st.seek(0)
+                    got = st.read()
+                    r = got.hex()
+                    if pos != len(got):
+                        r = f'error:position {pos} of {len(got)}'
                 except Exception as e:
                     r = 'missing' if _exc_class(e) in MISSING_OK else f'error:{_exc_class(e)}'
+                finally:
+                    st.close()
             else:
                 r = sorted(await _collect(backend.list_files(op[1])))
         except Exception as e:      # noqa: an adapter failing on a legal history is a result to compare
@@ -563,20 +569,52 @@ def _sync_run(coro):
     return _LOOP.run_until_complete(coro)
 
 
-def run_s3(h):
+PRIMARY13 = {('s3c', 'upload'): 'PUT', ('s3c', 'upload_stream'): 'PUT', ('s3c', 'download'): 'GET', ('s3c', 'download_stream'): 'GET',
+             ('s3c', 'exists'): 'HEAD', ('s3c', 'delete'): 'DELETE', ('s3c', 'list'): 'LIST',
+             ('b2', 'upload'): 'upload', ('b2', 'upload_stream'): 'upload', ('b2', 'download'): 'download', ('b2', 'download_stream'): 'download',
+             ('b2', 'exists'): 'head', ('b2', 'delete'): 'hide_file', ('b2', 'list'): 'list_file_names'}
+
+
+def transient_rules(backend, idx, op, h):
+    """The masked transient fault(s) this operation meets in the faulty runs: about 3 operations in 5 get one (S3 sometimes
+    two) - a connection dropped after at least one body piece, 503, 429 with retry-after, a refused connection - always
+    within the retry budget, so the adapter must still answer exactly as the plain map does."""
+    salt = len(h['ops']) + len(op[1])
+    if (idx * 7 + salt) % 5 >= 3:
+        return []
+    kind = ('drop_body', '503', '429', 'drop_body', 'drop')[(idx + salt) % 5]
+    transfer = op[0] in ('upload', 'upload_stream', 'download', 'download_stream')
+    if kind == 'drop_body' and not transfer:
+        kind = 'drop'
+    rule = {'op': PRIMARY13[(backend, op[0])], 'kind': kind, 'count': 1}
+    if kind == 'drop_body':
+        rule['after'] = 1 + (idx + salt) % 3
+    rules = [rule]
+    if backend == 's3c' and (idx + salt) % 4 == 0:
+        rules.append({'op': rule['op'], 'kind': '503' if kind != '503' else '429', 'count': 1})
+    return rules
+
+
+def run_s3(h, faulty=False, real_files=None):
     from replicat.backends import s3c
-    svc = fk.FakeS3('bkt', page_size=h['page'], piece=h['piece'], max_requests=5000)
+    svc = fk.FakeS3('bkt', page_size=h['page'], piece=h['chunk'] if faulty else h['piece'], max_requests=5000)
+    nfired = [0]
     with fk.patched_async_client(svc.handler):
         b = s3c.S3Compatible('bkt', key_id='AKIDEXAMPLE', access_key='secret', region='us-east-1', host='s3.fake.test')
     pages, mark = [], [0]
 
     def before(idx, op):
         mark[0] = svc.count('LIST')
+        if faulty:
+            nfired[0] += len(svc.plan.fired)
+            svc.plan = fk.FaultPlan(transient_rules('s3c', idx, op, h))
 
     def after(idx, op):
         pages.append(svc.count('LIST') - mark[0] if op[0] == 'list' else 0)
-    out = _sync_run(run_adapter(b, h, before, after))
+    out = _sync_run(run_adapter(b, h, before, after, real_files))
     _sync_run(b.close())
+    if faulty:
+        return out, dict(svc.objects), nfired[0] + len(svc.plan.fired)
     return out, dict(svc.objects), pages
 
 
@@ -584,21 +622,28 @@ def run_s3(h):
 B2_MODES = (('name', False), ('id', False), ('id', True), ('name', True))
 
 
-def run_b2(h, mode=('name', False)):
+def run_b2(h, mode=('name', False), faulty=False, real_files=None):
     from replicat.backends import b2
     by, restricted = mode
-    svc = fk.FakeB2('bkt', page_size=h['page'], piece=h['piece'], synthetic_next=h['synthetic_next'], max_requests=5000, restricted=restricted)
+    svc = fk.FakeB2('bkt', page_size=h['page'], piece=h['chunk'] if faulty else h['piece'], synthetic_next=h['synthetic_next'], max_requests=5000,
+                    restricted=restricted)
+    nfired = [0]
     with fk.patched_async_client(svc.handler):
         b = b2.B2('bkt' if by == 'name' else svc.bucket_id, key_id='kid', application_key='appkey')
     pages, mark = [], [0]
 
     def before(idx, op):
         mark[0] = svc.count('list_file_names')
+        if faulty:
+            nfired[0] += len(svc.plan.fired)
+            svc.plan = fk.FaultPlan(transient_rules('b2', idx, op, h))
 
     def after(idx, op):
         pages.append(svc.count('list_file_names') - mark[0] if op[0] == 'list' else 0)
-    out = _sync_run(run_adapter(b, h, before, after))
+    out = _sync_run(run_adapter(b, h, before, after, real_files))
     _sync_run(b.close())
+    if faulty:
+        return out, dict(svc.objects), nfired[0] + len(svc.plan.fired)
     return out, dict(svc.objects), pages
 
 
@@ -720,6 +765,14 @@ def check_histories(hs, rep: Report, scratch: Path, spellings, with_model=True, 
             for md in modes[1:]:
                 runs['b2:by-%s%s' % (md[0], '-restricted-key' if md[1] else '')] = run_b2(h, md)[:2]
             rep.count('b2_addressed_by_' + modes[0][0] + ('_restricted' if modes[0][1] else ''))
+            # the same history with masked transient faults sprinkled over the requests (refinement across retries)
+            fdir = scratch / f'{tag}{idx}_httpfiles'
+            fdir.mkdir(parents=True, exist_ok=True)
+            o, st_, nf = run_s3(h, faulty=True, real_files=fdir)
+            runs['s3c:with-transient-faults'] = (o, st_)
+            o, st_, nf2 = run_b2(h, modes[0], faulty=True, real_files=fdir)
+            runs['b2:with-transient-faults'] = (o, st_)
+            rep.count('masked_transient_http_faults', nf + nf2)
             impl.append({'s3': s3o, 'b2': b2o, 's3_pages': s3pages, 'b2_pages': b2pages,
                          'local': runs['local:' + spellings(idx)[0]][0], 'ref': ref})
             nlist_pages = max(s3pages) if s3pages else 0
@@ -837,7 +890,7 @@ def corpus():
 
 def run(ctx) -> Report:
     rep = Report(rule=RULE)
-    n = ctx.scale(260, 3000)
+    n = ctx.scale(240, 3000)
     hs = corpus() + [gen_history(ctx.rng) for _ in range(n)]
     # every spelling on the first histories, then a rotating subset
     k = ctx.scale(4, 6)
